@@ -102,26 +102,39 @@ theorem C01_from_reads (K : Nat) (hK : 4 ≤ K) (reads : List (Seq × Exts × Na
   rw [← this]
   exact hp.map _
 
-/-- **C01 (`compress_kmers_no_exts`, unstranded).** For every list of pairwise distinct canonical k-mers of length K with
-    payloads and every symmetric join, the entry point that discovers the extensions itself (by membership of the canonical
-    neighbour) never panics and partitions exactly the given k-mers into nodes — its table is well-formed and reciprocal by
-    construction (`noExts_table_ok`), in whatever order the hash map lists it. -/
-theorem C01_no_exts (K : Nat) (hK : 1 ≤ K) (kd : List (Seq × D)) (hlen : ∀ p ∈ kd, p.1.length = K)
-    (hnd : (kd.map (·.1)).Nodup) (hcan : ∀ p ∈ kd, ¬ rc p.1 < p.1) (join : D → D → Bool) (hj : ∀ a b, join a b = join b a)
-    (reduce : D → D → D) (T : Table D) (hp : T.Perm (noExtsTable kd)) :
-    ∃ out, compressKmersC T false join reduce = some out ∧
-      (out.flatMap fun x => (windowsOf K x.1.seq).map (fun w => (canonOf false w).1)).Perm (kd.map (·.1)) ∧
+/-- **C01 (`compress_kmers_no_exts`, stranded or not).** For every list of pairwise distinct k-mers of length K (canonical ones when
+    unstranded) with payloads and every symmetric join, the entry point that discovers the extensions itself (by membership of
+    the neighbour - of its canonical form when unstranded) never panics and partitions exactly the given k-mers into nodes — its
+    table is well-formed and reciprocal by construction (`noExts_table_ok`), in whatever order the hash map lists it.
+    (Before the repair of D9 the stranded case looked neighbours up by canonical form: non-reciprocal tables, `unreachable` panic.) -/
+theorem C01_no_exts (st : Bool) (K : Nat) (hK : 1 ≤ K) (kd : List (Seq × D)) (hlen : ∀ p ∈ kd, p.1.length = K)
+    (hnd : (kd.map (·.1)).Nodup) (hcan : st = false → ∀ p ∈ kd, ¬ rc p.1 < p.1) (join : D → D → Bool) (hj : ∀ a b, join a b = join b a)
+    (reduce : D → D → D) (T : Table D) (hp : T.Perm (noExtsTable st kd)) :
+    ∃ out, compressKmersC T st join reduce = some out ∧
+      (out.flatMap fun x => (windowsOf K x.1.seq).map (fun w => (canonOf st w).1)).Perm (kd.map (·.1)) ∧
       ∀ x ∈ out, K ≤ x.1.seq.length := by
-  obtain ⟨wf0, hes0⟩ := noExts_table_ok K hK kd hlen hnd hcan
-  have wf := Filter.wf_perm false _ T K hp wf0
-  have hes := (Filter.extSym2_perm false _ T K hp wf0 hes0).toExtSym
+  obtain ⟨wf0, hes0⟩ := noExts_table_ok st K hK kd hlen hnd hcan
+  have wf := Filter.wf_perm st _ T K hp wf0
+  have hes := (Filter.extSym2_perm st _ T K hp wf0 hes0).toExtSym
   obtain ⟨out, h1, h2, h3⟩ := compressKmersC_partition reduce wf hes hj
   refine ⟨out, h1, h2.trans ?_, h3⟩
-  rw [← noExts_keys kd]
+  rw [← noExts_keys st kd]
   exact hp.map _
 
 /-- the hypotheses are satisfiable: a three-k-mer chain ACG → CGT (palindrome-free, stranded) -/
 example : partitionOK 3 true ([⟨[0,1,2], ⟨0x80⟩, 1⟩, ⟨[1,2,3], ⟨0x01⟩, 1⟩] : Table Nat)
     [⟨[0,1,2,3], ⟨0⟩, 2⟩] = true := by decide
 
+end Compress
+
+namespace Compress
+/-- D9, the witness: the two 4-mers of the read `CAATG`, stranded. Looking neighbours up by canonical form (what
+    `compress_kmers_no_exts` did in both modes) records `G` to the right of `CAAT` but nothing to the left of `AATG` (first example; the walk then panics, as the
+    crate did). Looked up as given, the two k-mers form the one node `CAATG`. -/
+example : (discoverExts false [[0, 0, 3, 2], [1, 0, 0, 3]] [1, 0, 0, 3]).val = 0x40 ∧
+    (discoverExts false [[0, 0, 3, 2], [1, 0, 0, 3]] [0, 0, 3, 2]).val = 0x00 := by decide
+example : (discoverExts true [[0, 0, 3, 2], [1, 0, 0, 3]] [1, 0, 0, 3]).val = 0x40 ∧
+    (discoverExts true [[0, 0, 3, 2], [1, 0, 0, 3]] [0, 0, 3, 2]).val = 0x02 := by decide
+example : (compressKmersC (noExtsTable true [(([0, 0, 3, 2] : Seq), (1 : Nat)), ([1, 0, 0, 3], 1)]) true (fun _ _ => true) (· + ·)).map
+    (fun out => out.map (·.1.seq)) = some [[1, 0, 0, 3, 2]] := by decide +kernel
 end Compress
